@@ -981,9 +981,11 @@ def remap_by_types(
                 self._found_types[node] = self.lookup_type(value)
             elif ((dc := self.lookup_type(t_node.value)) is not None) and is_dataclass(dc):
                 dc_types = get_type_hints(dc)
-                if node.attr not in dc_types:
+                if node.attr in dc_types:
+                    self._found_types[node] = dc_types[node.attr]
+                elif not callable(getattr(dc, node.attr, None)):
+                    # (a method of a data class is looked after where it is called)
                     raise ValueError(f"Key {node.attr} not found in dataclass/dictionary {dc}")
-                self._found_types[node] = dc_types[node.attr]
             return t_node
 
     tt = type_transformer(o_stream)
